@@ -232,14 +232,14 @@ Lemma slab_sel_lengths : forall sh off cnt foff fcnt,
   slab_sel sh off cnt = Ok (foff, fcnt) -> List.length foff = List.length sh /\ List.length fcnt = List.length sh.
 Proof.
   intros sh off cnt foff fcnt H. unfold slab_sel in H.
+  destruct (negb (Nat.eqb (List.length off) 0) &&
+            ((List.length off <? List.length sh)%nat ||
+             (negb (Nat.eqb (List.length cnt) 0) && (List.length cnt <? List.length sh)%nat))) eqn:E0; [discriminate|].
   destruct ((32 <? List.length cnt)%nat || existsb (fun c => u64max <=? c) cnt); [discriminate|].
   destruct off as [|o off].
   - inversion H; subst. rewrite repeat_length. auto.
-  - destruct cnt as [|c cnt].
-    + destruct (List.length (o :: off) <? List.length sh)%nat eqn:E; [discriminate|].
-      inversion H; subst. rewrite firstn_length, repeat_length. split; lia.
-    + destruct ((List.length (o :: off) <? List.length sh)%nat || (List.length (c :: cnt) <? List.length sh)%nat) eqn:E; [discriminate|].
-      inversion H; subst. rewrite !firstn_length. split; lia.
+  - destruct cnt as [|c cnt]; inversion H; subst; cbn [List.length] in *;
+      rewrite ?firstn_length, ?repeat_length; cbn [List.length]; split; lia.
 Qed.
 
 (** ** write: the cell-wise effect *)
@@ -442,10 +442,10 @@ Lemma slab_sel_full : forall sh off cnt,
   slab_sel sh off cnt = Ok (off, cnt) \/ slab_sel sh off cnt = Err h5exception.
 Proof.
   intros sh off cnt Hr Ho Hc. unfold slab_sel.
-  destruct ((32 <? List.length cnt)%nat || existsb (fun c => u64max <=? c) cnt); [right; reflexivity|].
+  rewrite Ho, Hc, Nat.ltb_irrefl. cbn [orb andb]. rewrite andb_false_r. cbn [orb andb]. rewrite andb_false_r.
+  destruct ((32 <? List.length sh)%nat || existsb (fun c => u64max <=? c) cnt); [right; reflexivity|].
   left. destruct off as [|o off]; [cbn [List.length] in Ho; lia|].
   destruct cnt as [|c cnt]; [cbn [List.length] in Hc; lia|].
-  rewrite Ho, Hc, Nat.ltb_irrefl. cbn [orb].
   rewrite <- Ho at 1. rewrite firstn_all. rewrite <- Hc. rewrite firstn_all. reflexivity.
 Qed.
 
@@ -554,13 +554,20 @@ Proof. intros. destruct m; reflexivity. Qed.
 Lemma sel_agree : forall sh off cnt, to_opt (slab_sel sh off cnt) = spec_sel sh off cnt.
 Proof.
   intros sh off cnt. unfold slab_sel, spec_sel.
-  destruct (32 <? List.length cnt)%nat; cbn [orb]; [reflexivity|].
-  destruct (existsb (fun c => u64max <=? c) cnt); [reflexivity|].
-  destruct off as [|o off]; cbn [is_nil]; [reflexivity|].
-  destruct cnt as [|c cnt]; cbn [is_nil].
-  - destruct (List.length (o :: off) <? List.length sh)%nat; reflexivity.
-  - destruct (List.length (o :: off) <? List.length sh)%nat; cbn [orb]; [reflexivity|].
-    destruct (List.length (c :: cnt) <? List.length sh)%nat; reflexivity.
+  destruct off as [|o off]; cbn [is_nil List.length Nat.eqb negb andb].
+  - destruct (32 <? List.length cnt)%nat; cbn [orb]; [reflexivity|].
+    destruct (existsb (fun c => u64max <=? c) cnt); reflexivity.
+  - destruct cnt as [|c cnt]; cbn [is_nil List.length Nat.eqb negb andb existsb orb].
+    + destruct (S (List.length off) <? List.length sh)%nat; cbn [orb]; [reflexivity|].
+      destruct (32 <? 0)%nat eqn:E; [discriminate E | reflexivity].
+    + destruct (S (List.length off) <? List.length sh)%nat; cbn [orb].
+      * destruct (32 <? S (List.length cnt))%nat; cbn [orb]; [reflexivity|].
+        destruct ((u64max <=? c) || existsb (fun c0 => u64max <=? c0) cnt); reflexivity.
+      * destruct (S (List.length cnt) <? List.length sh)%nat.
+        -- destruct (32 <? S (List.length cnt))%nat; cbn [orb]; [reflexivity|].
+           destruct ((u64max <=? c) || existsb (fun c0 => u64max <=? c0) cnt); reflexivity.
+        -- destruct (32 <? S (List.length cnt))%nat; cbn [orb]; [reflexivity|].
+           destruct ((u64max <=? c) || existsb (fun c0 => u64max <=? c0) cnt); reflexivity.
 Qed.
 
 Lemma region_agree : forall sh off cnt,
@@ -635,19 +642,23 @@ Proof.
   intros a h dst off cnt HR. unfold io_read.
   rewrite (calibrated_agree _ _ HR).
   destruct (s_calibrated h) eqn:Hcal.
-  - rewrite to_opt_bind, (read_direct_agree _ _ _ _ _ HR).
-    destruct HR as (Ht & Hsh & _ & _ & Hp & Ho).
-    unfold spec_read_list, spec_read_vals. rewrite Hcal. cbn [orb negb].
-    destruct (spec_region (s_shape h) off cnt) as [[foff fcnt]|]; [|reflexivity].
-    destruct (conv_ok (s_ty h) TDouble); cbn [andb]; [|reflexivity].
-    destruct (conv_ok TDouble dst) eqn:Hc2.
-    + rewrite <- mapO_compose.
-      destruct (mapO (fun v => to_opt (conv_val (s_ty h) TDouble v)) (spec_region_vals h foff fcnt)) as [ds|]; [|reflexivity].
-      rewrite (conv_ok_not_string _ Hc2). cbn [andb negb].
-      rewrite to_opt_mapM. apply mapO_ext. intro v.
-      rewrite apply_poly_spec. unfold poly_coeffs, s_coeffs, origin_or_zero. rewrite Hp, Ho. reflexivity.
-    + destruct (mapO (fun v => to_opt (conv_val (s_ty h) TDouble v)) (spec_region_vals h foff fcnt)) as [ds|]; [|reflexivity].
-      destruct (dtype_eqb dst TString && negb (Nat.eqb (List.length ds) 0)); reflexivity.
+  - destruct (dtype_eqb dst TString) eqn:Es.
+    + assert (dst = TString) by (destruct dst; (discriminate || reflexivity)). subst dst. cbn [to_opt].
+      unfold spec_read_list, spec_read_vals. rewrite Hcal. cbn [orb negb].
+      destruct (spec_region (s_shape h) off cnt) as [[foff fcnt]|]; [|reflexivity].
+      replace (conv_ok TDouble TString) with false by reflexivity. rewrite andb_false_r. reflexivity.
+    + rewrite to_opt_bind, (read_direct_agree _ _ _ _ _ HR).
+      destruct HR as (Ht & Hsh & _ & _ & Hp & Ho).
+      unfold spec_read_list, spec_read_vals. rewrite Hcal. cbn [orb negb].
+      destruct (spec_region (s_shape h) off cnt) as [[foff fcnt]|]; [|reflexivity].
+      destruct (conv_ok (s_ty h) TDouble); cbn [andb]; [|reflexivity].
+      destruct (conv_ok TDouble dst) eqn:Hc2.
+      * rewrite <- mapO_compose.
+        destruct (mapO (fun v => to_opt (conv_val (s_ty h) TDouble v)) (spec_region_vals h foff fcnt)) as [ds|]; [|reflexivity].
+        cbn [negb].
+        rewrite to_opt_mapM. apply mapO_ext. intro v.
+        rewrite apply_poly_spec. unfold poly_coeffs, s_coeffs, origin_or_zero. rewrite Hp, Ho. reflexivity.
+      * destruct (mapO (fun v => to_opt (conv_val (s_ty h) TDouble v)) (spec_region_vals h foff fcnt)) as [ds|]; reflexivity.
   - rewrite (read_direct_agree _ _ _ _ _ HR).
     unfold spec_read_list, spec_read_vals. rewrite Hcal. cbn [orb negb]. reflexivity.
 Qed.
@@ -749,11 +760,10 @@ Qed.
 (** ** One call *)
 
 Definition R (s : st) (h : sst) : Prop :=
-  RA (disk s) h /\ sess s = s_mode h /\ ro_origin s = None.
+  RA (disk s) h /\ sess s = s_mode h.
 
-(** the domain of the refinement: 64-bit unsigned extents, an append that does not overflow 64 bits,
-    and no overwrite of an existing origin in a read-only session (each exclusion is exhibited by a
-    theorem below: [append_wrap_shrinks], [ro_origin_trace]) *)
+(** the domain of the refinement: 64-bit unsigned extents and an append that does not overflow
+    64 bits (the exclusion is exhibited by [append_wrap_shrinks]) *)
 Definition op_dom (s : st) (o : op) : Prop :=
   match o with
   | OExtent sh => shape_ok sh
@@ -761,7 +771,6 @@ Definition op_dom (s : st) (o : op) : Prop :=
   | OAppend axis cnt _ =>
       0 <= axis /\ 0 <= nth (Z.to_nat axis) cnt 0 /\
       nth (Z.to_nat axis) (a_shape (disk s)) 0 + nth (Z.to_nat axis) cnt 0 < two64
-  | OOrigin (Some _) => ~ (sess s = Some RO /\ opt_is_some (a_origin (disk s)) = true)
   | _ => True
   end.
 
@@ -770,9 +779,6 @@ Proof. intros a h m H. exact H. Qed.
 
 Lemma is_ro_mode : forall h m, s_mode h = Some m -> is_ro m = ro_mode h.
 Proof. intros h m H. unfold ro_mode. rewrite H. destruct m; reflexivity. Qed.
-
-Lemma view_disk : forall s, ro_origin s = None -> view s = disk s.
-Proof. intros s H. unfold view. rewrite H. reflexivity. Qed.
 
 Lemma ro_mode_push : forall h h', s_mode h' = s_mode h -> ro_mode h' = ro_mode h.
 Proof. intros h h' H. unfold ro_mode. rewrite H. reflexivity. Qed.
@@ -808,43 +814,43 @@ Proof. intros a h o m (Ht & Hsh & Hwf & Hc & Hp & Ho). repeat split; try assumpt
 Theorem step_refines : forall s h o, R s h -> op_dom s o ->
   to_opt (snd (step s o)) = snd (spec_step h o) /\ R (fst (step s o)) (fst (spec_step h o)).
 Proof.
-  intros s h o (HRA & Hsess & Hov) Hdom.
+  intros s h o (HRA & Hsess) Hdom.
   destruct o as [off cnt vals|sh vals|axis cnt vals|sh| |direct dst off cnt| |cs|x| | |m0].
   11:{ (* OClose *) unfold step, spec_step. cbn [fst snd to_opt]. split; [reflexivity|].
-       split; [|split; reflexivity]. cbn [disk]. apply RA_mode. assumption. }
+       split; [|reflexivity]. cbn [disk]. apply RA_mode. assumption. }
   11:{ (* OOpen *) unfold step, spec_step. cbn [fst snd to_opt]. split; [reflexivity|].
-       split; [|split; reflexivity]. cbn [disk]. apply RA_mode. assumption. }
+       split; [|reflexivity]. cbn [disk]. apply RA_mode. assumption. }
   all: unfold step, spec_step; rewrite Hsess; destruct (s_mode h) as [m|] eqn:Hm;
        [ | try (destruct cs); try (destruct x); cbn [fst snd to_opt];
-           (split; [reflexivity | split; [assumption | split; [congruence | assumption]]]) ].
-  all: pose proof (is_ro_mode _ _ Hm) as Hro; try rewrite (view_disk _ Hov).
+           (split; [reflexivity | split; [assumption | congruence]]) ].
+  all: pose proof (is_ro_mode _ _ Hm) as Hro; unfold view.
   - (* OWrite *)
     pose proof (write_agree (disk s) h off cnt vals HRA) as Hw. rewrite Hro.
     destruct (write_slab (ro_mode h) (disk s) off cnt vals) as [a'|e|w].
     + destruct Hw as (h' & Hw & HR' & Hm'). rewrite Hw. cbn [fst snd to_opt]. split; [reflexivity|].
-      split; [assumption|]. cbn [on_disk sess ro_origin]. split; congruence.
-    + rewrite Hw. cbn [fst snd to_opt]. split; [reflexivity|]. split; [assumption|]. split; congruence.
-    + rewrite Hw. cbn [fst snd to_opt]. split; [reflexivity|]. split; [assumption|]. split; congruence.
+      split; [assumption|]. cbn [on_disk sess]. congruence.
+    + rewrite Hw. cbn [fst snd to_opt]. split; [reflexivity|]. split; [assumption|]. congruence.
+    + rewrite Hw. cbn [fst snd to_opt]. split; [reflexivity|]. split; [assumption|]. congruence.
   - (* OWriteAll *)
     cbn [op_dom] in Hdom.
     pose proof (write_all_agree (disk s) h sh vals HRA Hdom) as Hw. rewrite Hro.
     destruct (write_all (ro_mode h) (disk s) sh vals) as [[a' r]|e|w].
     + destruct Hw as (h' & q & Hw & Hq & HR' & Hm'). rewrite Hw. cbn [fst snd]. split; [assumption|].
-      split; [assumption|]. cbn [on_disk sess ro_origin]. split; congruence.
-    + rewrite Hw. cbn [fst snd to_opt]. split; [reflexivity|]. split; [assumption|]. split; congruence.
-    + rewrite Hw. cbn [fst snd to_opt]. split; [reflexivity|]. split; [assumption|]. split; congruence.
+      split; [assumption|]. cbn [on_disk sess]. congruence.
+    + rewrite Hw. cbn [fst snd to_opt]. split; [reflexivity|]. split; [assumption|]. congruence.
+    + rewrite Hw. cbn [fst snd to_opt]. split; [reflexivity|]. split; [assumption|]. congruence.
   - (* OAppend *)
     cbn [op_dom] in Hdom. destruct Hdom as (Hax & Hc0 & Hnw).
     pose proof HRA as (Ht & Hsh & Hwf & _).
     unfold append. fold (s_shape h). rewrite <- Hsh.
     set (ext := a_shape (disk s)) in *. set (ax := Z.to_nat axis) in *.
     replace (axis <? 0) with false by lia. cbn [orb].
-    destruct (zlen ext <=? axis) eqn:E1; [cbn [fst snd to_opt]; split; [reflexivity | split; [assumption | split; congruence]]|].
+    destruct (zlen ext <=? axis) eqn:E1; [cbn [fst snd to_opt]; split; [reflexivity | split; [assumption | congruence]]|].
     destruct (Nat.eqb (List.length ext) (List.length cnt)) eqn:E2; cbn [negb];
-      [|cbn [fst snd to_opt]; split; [reflexivity | split; [assumption | split; congruence]]].
+      [|cbn [fst snd to_opt]; split; [reflexivity | split; [assumption | congruence]]].
     unfold eq_except.
     destruct (forallb (fun j => Nat.eqb j ax || (nth j ext 0 =? nth j cnt 0)) (seq 0 (List.length cnt))) eqn:E3; cbn [negb];
-      [|cbn [fst snd to_opt]; split; [reflexivity | split; [assumption | split; congruence]]].
+      [|cbn [fst snd to_opt]; split; [reflexivity | split; [assumption | congruence]]].
     destruct Hwf as [Hok Hlen].
     pose proof (shape_ok_nth ext ax Hok) as He0.
     rewrite u64_add_small by lia.
@@ -857,33 +863,33 @@ Proof.
       rewrite (ro_mode_push _ _ Hm1) in Hw.
       destruct (write_slab (ro_mode h) a1 (set_nth (repeat 0 (List.length ext)) ax (nth ax ext 0)) cnt vals) as [a2|e|w].
       * destruct Hw as (h2 & Hw & HR2 & Hm2). rewrite Hw. cbn [fst snd unit_res bind to_opt]. split; [reflexivity|].
-        split; [assumption|]. cbn [on_disk sess ro_origin]. split; congruence.
+        split; [assumption|]. cbn [on_disk sess]. congruence.
       * rewrite Hw. cbn [fst snd unit_res bind to_opt]. split; [reflexivity|].
-        split; [assumption|]. cbn [on_disk sess ro_origin]. split; congruence.
+        split; [assumption|]. cbn [on_disk sess]. congruence.
       * rewrite Hw. cbn [fst snd unit_res bind to_opt]. split; [reflexivity|].
-        split; [assumption|]. cbn [on_disk sess ro_origin]. split; congruence.
-    + rewrite He. cbn [fst snd to_opt]. split; [reflexivity|]. split; [assumption|]. split; congruence.
-    + rewrite He. cbn [fst snd to_opt]. split; [reflexivity|]. split; [assumption|]. split; congruence.
+        split; [assumption|]. cbn [on_disk sess]. congruence.
+    + rewrite He. cbn [fst snd to_opt]. split; [reflexivity|]. split; [assumption|]. congruence.
+    + rewrite He. cbn [fst snd to_opt]. split; [reflexivity|]. split; [assumption|]. congruence.
   - (* OExtent *)
     cbn [op_dom] in Hdom.
     pose proof (extent_agree (disk s) h sh HRA Hdom) as He. rewrite Hro.
     destruct (set_extent (ro_mode h) (disk s) sh) as [a'|e|w].
     + destruct He as (h' & He & HR' & Hm'). rewrite He. cbn [fst snd to_opt]. split; [reflexivity|].
-      split; [assumption|]. cbn [on_disk sess ro_origin]. split; congruence.
-    + rewrite He. cbn [fst snd to_opt]. split; [reflexivity|]. split; [assumption|]. split; congruence.
-    + rewrite He. cbn [fst snd to_opt]. split; [reflexivity|]. split; [assumption|]. split; congruence.
+      split; [assumption|]. cbn [on_disk sess]. congruence.
+    + rewrite He. cbn [fst snd to_opt]. split; [reflexivity|]. split; [assumption|]. congruence.
+    + rewrite He. cbn [fst snd to_opt]. split; [reflexivity|]. split; [assumption|]. congruence.
   - (* OShape *)
     cbn [fst snd to_opt]. assert (Hsh : a_shape (disk s) = s_shape h) by apply HRA. rewrite Hsh.
-    split; [reflexivity|]. split; [assumption | split; congruence].
+    split; [reflexivity|]. split; [assumption | congruence].
   - (* ORead *)
-    cbn [fst snd]. split; [|split; [assumption | split; congruence]].
+    cbn [fst snd]. split; [|split; [assumption | congruence]].
     rewrite to_opt_bind. unfold spec_read.
     assert (Ht : a_ty (disk s) = s_ty h) by apply HRA. rewrite Ht.
     destruct direct.
     + rewrite (read_direct_agree _ _ _ _ _ HRA). destruct (spec_read_list h true _ off cnt); reflexivity.
     + rewrite (io_read_agree _ _ _ _ _ HRA). destruct (spec_read_list h false _ off cnt); reflexivity.
   - (* OReadVec *)
-    cbn [fst snd]. split; [|split; [assumption | split; congruence]].
+    cbn [fst snd]. split; [|split; [assumption | congruence]].
     rewrite to_opt_bind. unfold read_vector. rewrite to_opt_bind, vector_agree.
     assert (Ht : a_ty (disk s) = s_ty h) by apply HRA.
     assert (Hsh : a_shape (disk s) = s_shape h) by apply HRA. rewrite Hsh.
@@ -893,27 +899,19 @@ Proof.
   - (* OPoly *)
     rewrite <- Hro.
     destruct cs as [cs|]; destruct (is_ro m); cbn [fst snd to_opt]; (split; [reflexivity|]).
-    all: split; [ | cbn [on_disk sess ro_origin s_mode]; split; congruence ].
+    all: split; [ | cbn [on_disk sess s_mode]; congruence ].
     all: try assumption.
     all: cbn [on_disk disk]; apply RA_with_poly; assumption.
   - (* OOrigin *)
     rewrite <- Hro.
-    destruct x as [x|]; destruct (is_ro m) eqn:Em.
-    + cbn [op_dom] in Hdom.
-      destruct (opt_is_some (a_origin (disk s))) eqn:Eo.
-      * exfalso. apply Hdom. split; [|reflexivity]. rewrite Hsess. destruct m; [discriminate | reflexivity].
-      * cbn [fst snd to_opt]. split; [reflexivity|]. split; [assumption | split; congruence].
-    + cbn [fst snd to_opt]. split; [reflexivity|].
-      split; [ | cbn [on_disk sess ro_origin s_mode]; split; congruence ].
-      cbn [on_disk disk]. apply RA_with_origin. assumption.
-    + cbn [fst snd to_opt]. split; [reflexivity|]. split; [assumption | split; congruence].
-    + cbn [fst snd to_opt]. split; [reflexivity|].
-      split; [ | cbn [on_disk sess ro_origin s_mode]; split; congruence ].
-      cbn [on_disk disk]. apply RA_with_origin. assumption.
+    destruct x as [x|]; destruct (is_ro m); cbn [fst snd to_opt]; (split; [reflexivity|]).
+    all: split; [ | cbn [on_disk sess s_mode]; congruence ].
+    all: try assumption.
+    all: cbn [on_disk disk]; apply RA_with_origin; assumption.
   - (* OCal *)
-    cbn [fst snd to_opt]. destruct HRA as (Ht & Hsh & Hwf & Hc & Hp & Ho).
+    cbn [fst snd to_opt]. pose proof HRA as (Ht & Hsh & Hwf & Hc & Hp & Ho).
     unfold poly_coeffs, s_coeffs. rewrite Hp, Ho. split; [reflexivity|].
-    split; [|split; congruence]. repeat split; try assumption; apply Hwf.
+    split; [assumption | congruence].
 Qed.
 
 (** ** Every history *)
@@ -944,7 +942,7 @@ Qed.
 
 Lemma start_R : forall t c sh, shape_ok sh -> R (start t c sh) (spec_start t sh).
 Proof.
-  intros t c sh Hok. unfold R, start, spec_start. cbn [disk sess ro_origin s_mode]. split; [|split; reflexivity].
+  intros t c sh Hok. unfold R, start, spec_start. cbn [disk sess s_mode]. split; [|reflexivity].
   unfold RA, s_shape, s_cell. cbn [s_ty s_hist s_poly s_origin shape_after cell_after].
   split; [reflexivity|]. split; [reflexivity|]. split; [apply create_wf; assumption|].
   split; [|split; reflexivity].
@@ -989,10 +987,9 @@ Theorem raw_unaffected : forall s o, is_cal_op o = true ->
 Proof.
   intros s o Ho. destruct o; try discriminate.
   - unfold step. destruct (sess s) as [m|]; destruct cs as [cs|]; try destruct (is_ro m); cbn [fst];
-      repeat split; try reflexivity; intros; unfold view; cbn [on_disk ro_origin disk]; destruct (ro_origin s); reflexivity.
+      repeat split; reflexivity.
   - unfold step. destruct (sess s) as [m|]; destruct o as [x|]; try destruct (is_ro m); cbn [fst];
-      try destruct (opt_is_some (a_origin (view s))); cbn [fst];
-      repeat split; try reflexivity; intros; unfold view; cbn [on_disk ro_origin disk]; destruct (ro_origin s); reflexivity.
+      repeat split; reflexivity.
 Qed.
 
 (** * Close + reopen *)
@@ -1005,40 +1002,48 @@ Definition is_read_op (o : op) : bool :=
 Theorem reopen_identity : forall s m,
   disk (fst (step (fst (step s OClose)) (OOpen m))) = disk s /\
   sess (fst (step (fst (step s OClose)) (OOpen m))) = Some m /\
-  (sess s <> None -> ro_origin s = None ->
+  (sess s <> None ->
    forall o, is_read_op o = true ->
      snd (step (fst (step (fst (step s OClose)) (OOpen m))) o) = snd (step s o)).
 Proof.
   intros s m. cbn [step fst disk sess]. split; [reflexivity|]. split; [reflexivity|].
-  intros Hs Hov o Ho. destruct (sess s) as [m0|] eqn:E; [|contradiction].
-  destruct o; try discriminate; unfold step; rewrite E; cbn [sess snd]; unfold view; cbn [ro_origin disk]; rewrite Hov; reflexivity.
+  intros Hs o Ho. destruct (sess s) as [m0|] eqn:E; [|contradiction].
+  destruct o; try discriminate; unfold step; rewrite E; cbn [sess snd]; unfold view; cbn [disk]; reflexivity.
 Qed.
 
-(** * Where the model shows undefined behaviour *)
+(** * No undefined behaviour in the slab selection *)
 
-(** the slab selection is UB exactly when a non-empty offset, or a count given together with one,
-    has fewer entries than the data has dimensions (and the memory space could be built) *)
-Theorem slab_ub_iff : forall sh off cnt,
-  is_ub (slab_sel sh off cnt) = true <->
-  ((32 <? List.length cnt)%nat || existsb (fun c => u64max <=? c) cnt = false) /\ off <> [] /\
-  ((List.length off < List.length sh)%nat \/ (cnt <> [] /\ (List.length cnt < List.length sh)%nat)).
+(** whatever the count / offset vectors are - shorter than the rank, longer, empty - the slab
+    selection either yields a region or throws; it never reaches HDF5 with too few entries *)
+Theorem slab_never_ub : forall sh off cnt, is_ub (slab_sel sh off cnt) = false.
 Proof.
   intros sh off cnt. unfold slab_sel.
-  destruct ((32 <? List.length cnt)%nat || existsb (fun c => u64max <=? c) cnt); cbn [is_ub].
-  - split; [discriminate | intros [H _]; discriminate].
-  - destruct off as [|o off]; cbn [is_ub].
-    + split; [discriminate | intros (_ & H & _); contradiction].
-    + destruct cnt as [|c cnt].
-      * destruct (List.length (o :: off) <? List.length sh)%nat eqn:E; cbn [is_ub].
-        -- split; [|reflexivity]. intros _. split; [reflexivity|]. split; [discriminate|]. left. apply Nat.ltb_lt. assumption.
-        -- split; [discriminate|]. intros (_ & _ & [H | [H _]]); [apply Nat.ltb_lt in H; congruence | contradiction].
-      * destruct (List.length (o :: off) <? List.length sh)%nat eqn:E1; cbn [orb is_ub].
-        -- split; [|reflexivity]. intros _. split; [reflexivity|]. split; [discriminate|]. left. apply Nat.ltb_lt. assumption.
-        -- destruct (List.length (c :: cnt) <? List.length sh)%nat eqn:E2; cbn [is_ub].
-           ++ split; [|reflexivity]. intros _. split; [reflexivity|]. split; [discriminate|]. right. split; [discriminate|].
-              apply Nat.ltb_lt. assumption.
-           ++ split; [discriminate|]. intros (_ & _ & [H | [_ H]]); apply Nat.ltb_lt in H; congruence.
+  destruct (negb (Nat.eqb (List.length off) 0) &&
+            ((List.length off <? List.length sh)%nat ||
+             (negb (Nat.eqb (List.length cnt) 0) && (List.length cnt <? List.length sh)%nat))); [reflexivity|].
+  destruct ((32 <? List.length cnt)%nat || existsb (fun c => u64max <=? c) cnt); [reflexivity|].
+  destruct off as [|o off]; [reflexivity|]. destruct cnt; reflexivity.
 Qed.
+
+(** a vector shorter than the rank is refused with InvalidRank *)
+Theorem slab_short_is_invalid_rank : forall sh off cnt,
+  off <> [] ->
+  ((List.length off < List.length sh)%nat \/ (cnt <> [] /\ (List.length cnt < List.length sh)%nat)) ->
+  slab_sel sh off cnt = Err "nix::InvalidRank"%string.
+Proof.
+  intros sh off cnt Ho H. unfold slab_sel.
+  destruct off as [|o off]; [contradiction|]. cbn [List.length Nat.eqb negb andb].
+  destruct H as [H | [Hc H]].
+  - apply Nat.ltb_lt in H. cbn [List.length] in H. rewrite H. reflexivity.
+  - destruct cnt as [|c cnt]; [contradiction|]. apply Nat.ltb_lt in H. cbn [List.length Nat.eqb negb andb] in *.
+    rewrite H. rewrite orb_true_r. reflexivity.
+Qed.
+
+(** reads: the only UB outcome left is the C cast of NaN inside H5Tconvert; a read-only session and
+    a calibrated read requested as String are plain refusals *)
+Theorem calibrated_string_refused : forall a off cnt,
+  calibrated a = true -> io_read a TString off cnt = Err h5error.
+Proof. intros a off cnt H. unfold io_read. rewrite H. reflexivity. Qed.
 
 (** * The pointwise specification, read as laws *)
 
